@@ -513,3 +513,102 @@ def sim_add_obligations():
             obs.append(Obligation(f"{key}/{cls.__name__}/p{pi}/post.appended-at-the-end", "post", list(s2.pc), goal, key,
                                   cls.__name__, pi, meta))
     return key, obs, info
+
+
+# ------------------------------------------------------------------------------------------------ to_proto(Sim | [Sim])
+import vlsir.circuit_pb2 as vckt  # noqa: E402
+from hdl21.module import Module  # noqa: E402
+EXPORTED = z3.Function("exported_sim_input", z3.IntSort(), z3.IntSort(), z3.IntSort())   # ghost: (sim, package) -> SimInput
+PKG_OF = z3.Function("package_of_testbenches", z3.IntSort(), z3.IntSort())               # ghost: id of the tb list -> package
+
+
+class ModuleToProto(Contract):
+    """hdl21.proto.to_proto as called by the Sim exporter: one package for the whole list of testbenches (assumed)."""
+    key = "hdl21.proto.exporting:to_proto"
+    raises = (Exception,)
+    returns = "ref"
+    result_classes = (vckt.Package,)
+
+    def scenarios(self, eng):
+        return []
+
+
+class ExporterCtor(Contract):
+    """SimProtoExporter(sim=, pkg=): a new exporter holding exactly that Sim and that package."""
+    key = "hdl21.sim.proto:SimProtoExporter"
+    pure = False
+
+    def scenarios(self, eng):
+        return []
+
+    def apply(self, eng, st, args, kwargs, node=None):
+        r = st.alloc(SimProtoExporter)
+        sim, pkg = kwargs.get("sim", args[0] if args else None), kwargs.get("pkg", args[1] if len(args) > 1 else None)
+        if not isinstance(sim, SRef) or not isinstance(pkg, SRef):
+            raise Unsupported("SimProtoExporter built from something else than a Sim and a package", node)
+        st.heap.put("sim", r.z, sim.z)
+        st.heap.put("pkg", r.z, pkg.z)
+        return [(st, r)]
+
+
+class ExporterExport(Contract):
+    """SimProtoExporter.export(): the SimInput of ITS Sim over ITS package (ghost function of the two) - assumed here,
+    its pieces (attributes, analyses, controls) are proved separately."""
+    key = "hdl21.sim.proto:SimProtoExporter.export"
+    raises = (Exception,)
+    returns = "ref"
+    result_classes = (vsp.SimInput,)
+
+    def scenarios(self, eng):
+        return []
+    posts = property(lambda self: [("of-its-sim", lambda eng, st0, st, a, res:
+                                    res.z == EXPORTED(st0.heap.get("sim", a.self.z), st0.heap.get("pkg", a.self.z)))])
+
+
+class SimToProto(Contract):
+    """hdl21.sim.to_proto(inp): a single Sim gives its SimInput; a list of k Sims gives k SimInputs, the i-th being that of
+    the i-th Sim, all over the one package co-exported for their testbenches."""
+    key = "hdl21.sim.proto:to_proto"
+    props = ("C17",)
+    pure = False
+    raises = (Exception,)
+
+    def scenarios(self, eng):
+        def single(eng, st):
+            eng.field_classes.update({"sim": (data.Sim,), "pkg": (vckt.Package,), "tb": (Module,)})
+            return {"inp": sym_ref(st, "s0", (data.Sim,))}
+        yield Scenario("single", single)
+        for k in (1, 2, 3):
+            def many(eng, st, k=k):
+                eng.field_classes.update({"sim": (data.Sim,), "pkg": (vckt.Package,), "tb": (Module,)})
+                sims = [sym_ref(st, f"s{i}", (data.Sim,)) for i in range(k)]
+                st.ghost["sims"] = sims
+                return {"inp": sims}
+            yield Scenario(f"list-of-{k}", many)
+
+    def p_each(self, eng, st0, st, a, res):
+        pkgs = [c[1] for c in st.calls if c[0] == ExporterExport.key]
+        sims = a.inp if isinstance(a.inp, list) else [a.inp]
+        if len(pkgs) != len(sims):
+            return False
+        # every exporter was built over the same package ...
+        ctor_pkgs = [st.heap.get("pkg", c[1].self.z) for c in st.calls if c[0] == ExporterExport.key]
+        same_pkg = z3.And([p == ctor_pkgs[0] for p in ctor_pkgs])
+        if isinstance(a.inp, list):
+            if not isinstance(res, list) or len(res) != len(sims):
+                return False
+            return z3.And(same_pkg, *[r.z == EXPORTED(s.z, ctor_pkgs[0]) for r, s in zip(res, sims)])
+        if not isinstance(res, SRef):
+            return False
+        return z3.And(same_pkg, res.z == EXPORTED(a.inp.z, ctor_pkgs[0]))
+    posts = property(lambda self: [("i-th-result-is-the-i-th-sim", self.p_each)])
+
+
+def to_proto_engine():
+    from hdl21.module import Module as _M
+    schema = dict(SCHEMA_EXTRA)
+    schema.update({"sim": "ref", "pkg": "ref", "tb": "ref"})
+    return mk_engine(contracts=[ModuleToProto(), ExporterCtor(), ExporterExport()], schema_extra=schema)
+
+
+VERIFY_TO_PROTO = [SimToProto()]
